@@ -808,6 +808,9 @@ def find_external_attr(file_ast: FortranAST, name: str, new_var: Variable) -> bo
         # We do this once
         if counter == 0:
             v.desc = new_var.desc
+            # The typed declaration carries the attributes (OPTIONAL, ...)
+            v.keywords = list(new_var.keywords)
+            v.keyword_info = new_var.keyword_info
             v.set_external_attr()
         # TODO: do i need to update AST any more?
         counter += 1
